@@ -12,8 +12,12 @@
 //! of the checks is compared, not only accept/reject.)
 //!
 //! model `c04mpp`: real nodes (scenario engine), what the receiver saw as op lines:
-//!   new | part <id> <value> <intended> <total> <cltv> <tag> <ev> | tick | block <h> | claim <known> |
-//!   claimdone | failback      -> inconsistent? claimable:<amt>:<deadline>? fail:<id>* fulfil:<id>* claimed:<amt>? | none
+//!   new | part <id> <value> <intended> <skim|none> <total> <cltv> <tag> <ev> | tick | block <h> | claim <known> |
+//!   claimdone | failback      -> inconsistent? claimable:<amt>:<skimmed>:<deadline>? fail:<id>* fulfil:<id>* claimed:<amt>:<skimmed>:<total>? | none
+//!   admit <allow_underpay> <onion_amt> <amt> <skim|none>   -> ok | low     (the amount test in front of the accumulator)
+//! `value` is the amount of the update_add_htlc the receiver got, `intended` the onion's amt_to_forward, `skim` the
+//! message's skimmed_fee_msat TLV: they differ when the part came through the intercepting last hop (node 2), which
+//! forwards less (skimmed fee; the receiver runs with accept_underpaying_htlcs) or more than the onion says.
 use ldk_verif_harness::common::*;
 use std::panic::AssertUnwindSafe;
 use std::sync::Mutex;
@@ -271,7 +275,8 @@ mod mpp {
 	use lightning::chain::channelmonitor::HTLC_FAIL_BACK_BUFFER;
 	use lightning::events::Event;
 	use lightning::ln::channelmanager::PaymentId;
-	use lightning::ln::functional_test_utils::{connect_block, connect_blocks, create_dummy_block, ConnectStyle};
+	use lightning::ln::functional_test_utils::{connect_block, connect_blocks, create_dummy_block, test_default_channel_config, ConnectStyle};
+	use lightning::util::config::HTLCInterceptionFlags;
 	use lightning::ln::outbound_payment::{RecipientCustomTlvs, RecipientOnionFields};
 	use lightning::ln::verif_hooks as vh;
 	use lightning::routing::router::{Path, PaymentParameters, Route, RouteHop, RouteParameters};
@@ -292,6 +297,13 @@ mod mpp {
 		net: Net,
 		/// (sender node, channel index) of every channel into the receiver
 		routes: Vec<(usize, usize)>,
+		/// channel 0 -> 2 when node 2 is an intercepting last hop (LSP): a part can then be sent 0 -> 2 -> receiver over
+		/// node 2's intercept scid and released by the harness with another amount on any channel 2 -> receiver
+		lsp_in: Option<usize>,
+		/// intercepts already decided
+		decided: BTreeSet<[u8; 32]>,
+		/// channels (index) on which the receiver currently refuses underpaying HTLCs
+		strict: BTreeSet<usize>,
 		/// channel index -> rank of its channel_id among the receiver's channels
 		rank: Vec<u64>,
 		/// every HTLC id the receiver has ever failed / fulfilled on this network (oracle 3)
@@ -311,16 +323,28 @@ mod mpp {
 	}
 
 	fn build_world(rng: &mut Rng, minimal: bool) -> Result<World, String> {
-		let three = !minimal && rng.chance(2, 5);
-		let k = if minimal { 2 } else { 2 + rng.below(2) as usize };
+		let three = !minimal && rng.chance(3, 5);
+		let k = if minimal { 2 } else if three { 1 + rng.below(2) as usize } else { 2 + rng.below(2) as usize };
+		let k2 = 1 + rng.below(2) as usize;
 		guarded(AssertUnwindSafe(|| {
 			let n = if three { 3 } else { 2 };
-			let mut net = Net::new(n, vec![None; n]);
+			// the receiver accepts underpaying HTLCs (skimmed fees) on all its channels; node 2 intercepts forwards to its intercept scid
+			let mut rcfg = test_default_channel_config();
+			rcfg.channel_config.accept_underpaying_htlcs = true;
+			let mut icfg = test_default_channel_config();
+			icfg.htlc_interception_flags = HTLCInterceptionFlags::ToInterceptSCIDs as u8;
+			let mut cfgs = vec![None, Some(rcfg)];
+			if three { cfgs.push(Some(icfg)); }
+			let mut net = Net::new(n, cfgs);
 			// deterministic block delivery (create_network picks a random style per node)
 			for nd in net.nodes.iter() { *nd.connect_style.borrow_mut() = ConnectStyle::FullBlockViaListen; }
 			let mut routes = vec![];
 			for _ in 0..k { equalize(&net); let c = net.open(0, RECV, 10_000_000, 1_000_000_000); routes.push((0, c)); }
-			if three { equalize(&net); let c = net.open(2, RECV, 10_000_000, 1_000_000_000); routes.push((2, c)); }
+			let mut lsp_in = None;
+			if three {
+				for _ in 0..k2 { equalize(&net); let c = net.open(2, RECV, 10_000_000, 1_000_000_000); routes.push((2, c)); }
+				equalize(&net); lsp_in = Some(net.open(0, 2, 10_000_000, 1_000_000_000));
+			}
 			equalize(&net);
 			net.pump_all();
 			net.settle(10);
@@ -329,7 +353,7 @@ mod mpp {
 			let mut rank = vec![0u64; net.chans.len()];
 			for (r, c) in order.iter().enumerate() { rank[*c] = r as u64; }
 			let clock = bitcoin::constants::genesis_block(bitcoin::Network::Testnet).header.time;
-			World { net, routes, rank, failed: BTreeSet::new(), fulfilled: BTreeSet::new(), clock, pay_ctr: 0, used: 0, bad: false }
+			World { net, routes, lsp_in, decided: BTreeSet::new(), strict: BTreeSet::new(), rank, failed: BTreeSet::new(), fulfilled: BTreeSet::new(), clock, pay_ctr: 0, used: 0, bad: false }
 		}))
 	}
 
@@ -353,7 +377,7 @@ mod mpp {
 		}
 	}
 
-	struct Added { htlc_id: u64, amount: u64, cltv: u32 }
+	struct Added { htlc_id: u64, amount: u64, cltv: u32, skim: Option<u64> }
 
 	/// One single-path payment `from -> RECV` over channel `chan`, `amt` msat, with the given onion fields.
 	/// Returns the update_add_htlc the sender queued (nothing is delivered yet).
@@ -374,9 +398,56 @@ mod mpp {
 		if let Err(e) = r { return Err(format!("{:?}", e)); }
 		let mut found = None;
 		if let Some(q) = net.q.get(&(from, RECV)) {
-			for wire in q.iter() { if let Wire::Add(m) = wire { if m.payment_hash == hash && m.channel_id == c.2 { found = Some(Added { htlc_id: m.htlc_id, amount: m.amount_msat, cltv: m.cltv_expiry }); } } }
+			for wire in q.iter() { if let Wire::Add(m) = wire { if m.payment_hash == hash && m.channel_id == c.2 { found = Some(Added { htlc_id: m.htlc_id, amount: m.amount_msat, cltv: m.cltv_expiry, skim: m.skimmed_fee_msat }); } } }
 		}
 		found.ok_or_else(|| "no update_add_htlc queued".to_string())
+	}
+
+	/// One payment 0 -> 2 -> RECV whose last hop is node 2's intercept scid: node 2 raises HTLCIntercepted and the harness
+	/// releases it over channel `chan` (2 -> RECV) with `amt - skim` msat (`skim` < 0: more than the onion says).
+	/// Returns the update_add_htlc node 2 queued for the receiver (not delivered yet).
+	fn send_via_lsp(w: &mut World, chan: usize, hash: PaymentHash, onion: RecipientOnionFields, amt: u64, delta: u32, skim: i64) -> Result<Added, String> {
+		const LSP: usize = 2;
+		let cin = w.lsp_in.ok_or_else(|| "no intercepting node".to_string())?;
+		w.pay_ctr += 1;
+		let mut pid = [0u8; 32];
+		pid[..8].copy_from_slice(&w.pay_ctr.to_be_bytes());
+		pid[8..16].copy_from_slice(&amt.to_be_bytes());
+		pid[31] = 0x4c;
+		let net = &mut w.net;
+		let c = net.chans[chan];
+		if c.0 != LSP { return Err("not a channel of the intercepting node".into()); }
+		let hops = vec![
+			RouteHop { pubkey: net.ids[LSP], node_features: NodeFeatures::empty(), short_channel_id: net.chans[cin].3,
+				// the sender pays for what node 2 adds on top (it would otherwise forward more than it received)
+				channel_features: ChannelFeatures::empty(), fee_msat: 1000 + if skim < 0 { (-skim) as u64 } else { 0 }, cltv_expiry_delta: 48, maybe_announced_channel: true },
+			RouteHop { pubkey: net.ids[RECV], node_features: NodeFeatures::empty(), short_channel_id: net.nodes[LSP].node.get_intercept_scid(),
+				channel_features: ChannelFeatures::empty(), fee_msat: amt, cltv_expiry_delta: delta, maybe_announced_channel: false }];
+		let params = PaymentParameters::from_node_id(net.ids[RECV], delta);
+		let mut route_params = RouteParameters::from_payment_params_and_value(params, amt);
+		route_params.max_total_routing_fee_msat = None;
+		let route = Route { paths: vec![Path { hops, blinded_tail: None }], route_params };
+		let r = net.nodes[0].node.send_payment_with_route(route, hash, onion, PaymentId(pid));
+		net.pump(0);
+		if let Err(e) = r { return Err(format!("{:?}", e)); }
+		net.settle(30);
+		let mut found = None;
+		for e in net.events[LSP].iter() {
+			if let Event::HTLCIntercepted { intercept_id, payment_hash, expected_outbound_amount_msat, .. } = e {
+				if *payment_hash == hash && !w.decided.contains(&intercept_id.0) { found = Some((*intercept_id, *expected_outbound_amount_msat)); }
+			}
+		}
+		let (iid, expected) = found.ok_or_else(|| "no HTLCIntercepted".to_string())?;
+		w.decided.insert(iid.0);
+		if expected != amt { return Err(format!("HTLCIntercepted expects {} for an onion amount of {}", expected, amt)); }
+		let fwd = (amt as i64 - skim).max(1) as u64;
+		if let Err(e) = net.nodes[LSP].node.forward_intercepted_htlc(iid, &c.2, net.ids[RECV], fwd) { let _ = net.nodes[LSP].node.fail_intercepted_htlc(iid); net.pump(LSP); return Err(format!("{:?}", e)); }
+		net.forward(LSP);
+		let mut add = None;
+		if let Some(q) = net.q.get(&(LSP, RECV)) {
+			for wire in q.iter() { if let Wire::Add(m) = wire { if m.payment_hash == hash && m.channel_id == c.2 { add = Some(Added { htlc_id: m.htlc_id, amount: m.amount_msat, cltv: m.cltv_expiry, skim: m.skimmed_fee_msat }); } } }
+		}
+		add.ok_or_else(|| "the intercepting node queued no update_add_htlc".to_string())
 	}
 
 	/// `Net::settle`, with the receiver's persister in InProgress mode: monitor updates of the receiver's
@@ -407,8 +478,10 @@ mod mpp {
 	struct Seen {
 		fails: Vec<u64>,
 		fulfils: Vec<u64>,
-		claimable: Vec<(u64, u32)>,
-		claimed: Vec<u64>,
+		/// PaymentClaimable: (amount_msat, counterparty_skimmed_fee_msat, claim_deadline)
+		claimable: Vec<(u64, u64, u32)>,
+		/// PaymentClaimed: (amount_msat, sum of htlcs[].counterparty_skimmed_fee_msat, sender_intended_total_msat, sum of htlcs[].value_msat)
+		claimed: Vec<(u64, u64, u64, u64)>,
 		handling_failed: Vec<String>,
 		trouble: Option<String>,
 	}
@@ -416,10 +489,10 @@ mod mpp {
 	impl Seen {
 		fn answer(&self) -> String {
 			let mut t: Vec<String> = vec![];
-			for (a, d) in &self.claimable { t.push(format!("claimable:{}:{}", a, d)); }
+			for (a, k, d) in &self.claimable { t.push(format!("claimable:{}:{}:{}", a, k, d)); }
 			for i in &self.fails { t.push(format!("fail:{}", i)); }
 			for i in &self.fulfils { t.push(format!("fulfil:{}", i)); }
-			for a in &self.claimed { t.push(format!("claimed:{}", a)); }
+			for (a, k, t2, _) in &self.claimed { t.push(format!("claimed:{}:{}:{}", a, k, t2)); }
 			if t.is_empty() { "none".into() } else { t.join(" ") }
 		}
 		fn nothing(&self) -> bool { self.fails.is_empty() && self.fulfils.is_empty() && self.claimable.is_empty() && self.claimed.is_empty() }
@@ -441,11 +514,11 @@ mod mpp {
 		let evs = &w.net.events[RECV];
 		for e in &evs[epos.min(evs.len())..] {
 			match e {
-				Event::PaymentClaimable { payment_hash, amount_msat, claim_deadline, .. } => {
-					if payment_hash == hash { s.claimable.push((*amount_msat, claim_deadline.unwrap_or(0))); } else { s.trouble = Some("PaymentClaimable for a foreign hash".into()); }
+				Event::PaymentClaimable { payment_hash, amount_msat, counterparty_skimmed_fee_msat, claim_deadline, .. } => {
+					if payment_hash == hash { s.claimable.push((*amount_msat, *counterparty_skimmed_fee_msat, claim_deadline.unwrap_or(0))); } else { s.trouble = Some("PaymentClaimable for a foreign hash".into()); }
 				},
-				Event::PaymentClaimed { payment_hash, amount_msat, .. } => {
-					if payment_hash == hash { s.claimed.push(*amount_msat); } else { s.trouble = Some("PaymentClaimed for a foreign hash".into()); }
+				Event::PaymentClaimed { payment_hash, amount_msat, htlcs, sender_intended_total_msat, .. } => {
+					if payment_hash == hash { s.claimed.push((*amount_msat, htlcs.iter().map(|h| h.counterparty_skimmed_fee_msat).sum(), sender_intended_total_msat.unwrap_or(0), htlcs.iter().map(|h| h.value_msat).sum())); } else { s.trouble = Some("PaymentClaimed for a foreign hash".into()); }
 				},
 				Event::HTLCHandlingFailed { failure_type, failure_reason, .. } => s.handling_failed.push(format!("{:?} {:?}", failure_type, failure_reason)),
 				_ => {},
@@ -470,13 +543,16 @@ mod mpp {
 	}
 
 	#[derive(Clone, Debug)]
-	struct PartSpec { route: usize, amt: u64, total: u64, delta: u32, sec: usize, tlv: Tlv }
+	/// `via`: Some(x) = through the intercepting node, which forwards `amt - x` (x > 0 skimmed fee, x < 0 over-payment);
+	/// only honoured when `route` is one of its channels. `strict`: the receiver refuses underpaying HTLCs on that channel
+	/// while this part arrives (`accept_underpaying_htlcs = false` via update_channel_config)
+	struct PartSpec { route: usize, amt: u64, total: u64, delta: u32, sec: usize, tlv: Tlv, via: Option<i64>, strict: bool }
 
 	#[derive(Clone, Debug)]
-	struct Held { id: u64, value: u64, intended: u64, total: u64, cltv: u32 }
+	struct Held { id: u64, value: u64, intended: u64, skim: u64, total: u64, cltv: u32 }
 
 	#[derive(PartialEq, Clone, Copy, Debug)]
-	enum PartOut { Held, Claimable, Rejected, Abort }
+	enum PartOut { Held, Claimable, Rejected, Refused, Abort }
 
 	struct Scn {
 		hash: PaymentHash,
@@ -487,6 +563,10 @@ mod mpp {
 		held: Vec<Held>,
 		/// ids / deadline / even-TLV flag of the last PaymentClaimable, while no fail-back or removal happened since
 		claimable_set: Option<(Vec<u64>, u32, bool)>,
+		/// (amount, skimmed, total_msat, sum intended) announced with it
+		announced: (u64, u64, u64, u64),
+		/// every op line of this scenario so far (for the oracle messages)
+		ops: Vec<String>,
 		/// claim deadline of the last PaymentClaimable (kept for the deadline schedules)
 		deadline: Option<u32>,
 		dead: bool,
@@ -511,7 +591,7 @@ mod mpp {
 				if s2 != secrets[0] { secrets.push(s2); }
 			}
 			rec.directive("new");
-			Scn { hash, preimage, secrets, min: min.unwrap_or(0), held: vec![], claimable_set: None, deadline: None, dead: false, stuck: false, bal0: w.recv_balance(), claimed_total: 0, kind }
+			Scn { hash, preimage, secrets, min: min.unwrap_or(0), held: vec![], claimable_set: None, announced: (0, 0, 0, 0), ops: vec!["new".into()], deadline: None, dead: false, stuck: false, bal0: w.recv_balance(), claimed_total: 0, kind }
 		}
 
 		fn onion(&self, p: &PartSpec, secret: PaymentSecret) -> RecipientOnionFields {
@@ -539,58 +619,113 @@ mod mpp {
 		/// drive the nodes under catch_unwind, then deliver everything
 		fn drive<F: FnOnce(&mut World)>(&mut self, w: &mut World, f: F) -> Result<(), String> {
 			let r = guarded(AssertUnwindSafe(|| { f(w); w.net.pump_all(); w.net.settle(60); }));
-			if r.is_err() { w.bad = true; self.dead = true; }
+			if let Err(e) = &r { if std::env::var("C04MPP_WHY").is_ok() { eprintln!("DRIVEPANIC {} [{}] {}", e, self.kind, self.history()); } w.bad = true; self.dead = true; }
 			r
+		}
+
+		fn history(&self) -> String { self.ops.join(" | ") }
+
+		/// the receiver's `accept_underpaying_htlcs` on channel `chan` (its side; `update_channel_config`)
+		fn set_strict(w: &mut World, chan: usize, strict: bool) {
+			if w.strict.contains(&chan) == strict { return; }
+			let (a, _b, cid, _) = w.net.chans[chan];
+			let node = w.net.nodes[RECV].node;
+			if let Some(d) = node.list_channels().into_iter().find(|c| c.channel_id == cid) {
+				if let Some(mut cfg) = d.config { cfg.accept_underpaying_htlcs = !strict; let _ = node.update_channel_config(&w.net.ids[a], &[cid], &cfg); }
+			}
+			w.net.pump(RECV);
+			if strict { w.strict.insert(chan); } else { w.strict.remove(&chan); }
+		}
+
+		/// queue the part's update_add_htlc for the receiver (directly, or through the intercepting node)
+		fn send_spec(&self, w: &mut World, p: &PartSpec) -> (usize, Option<i64>, bool, Result<Result<Added, String>, String>) {
+			let (from, chan) = w.routes[p.route % w.routes.len()];
+			let via = if from == 2 && w.lsp_in.is_some() { p.via } else { None };
+			let strict = via.is_some() && p.strict;
+			let onion = self.onion(p, self.secrets[p.sec % self.secrets.len()]);
+			let hash = self.hash;
+			let sent = guarded(AssertUnwindSafe(|| {
+				Scn::set_strict(w, chan, strict);
+				match via { Some(x) => send_via_lsp(w, chan, hash, onion, p.amt, p.delta, x), None => send_raw(w, from, chan, hash, onion, p.amt, p.delta) }
+			}));
+			(chan, via, strict, sent)
 		}
 
 		fn op_part(&mut self, w: &mut World, rec: &mut Rec, p: &PartSpec) -> PartOut {
 			if self.dead { return PartOut::Abort; }
-			let (from, chan) = w.routes[p.route % w.routes.len()];
 			let (tpos, epos) = (w.net.trace.len(), w.net.events[RECV].len());
-			let onion = self.onion(p, self.secrets[p.sec % self.secrets.len()]);
-			let hash = self.hash;
-			let sent = guarded(AssertUnwindSafe(|| send_raw(w, from, chan, hash, onion, p.amt, p.delta)));
+			let (chan, via, strict, sent) = self.send_spec(w, p);
 			let add = match sent {
 				Ok(Ok(a)) => a,
 				Ok(Err(_)) => { self.dead = true; rec.discarded += 1; return PartOut::Abort; },
-				Err(_) => { self.dead = true; w.bad = true; rec.discarded += 1; return PartOut::Abort; },
+				Err(e) => { if std::env::var("C04MPP_WHY").is_ok() { eprintln!("SENDPANIC {} via {:?} [{}] {}", e, via, self.kind, self.history()); } self.dead = true; w.bad = true; rec.discarded += 1; return PartOut::Abort; },
 			};
 			let id = w.rank[chan] * 1_000_000 + add.htlc_id;
 			let ev = p.tlv.even();
 			let tag = (p.sec % self.secrets.len()) as u64 * 1000 + match ev { None => 1, Some(v) => 2 + v as u64 };
-			let op = format!("part {} {} {} {} {} {} {}", id, add.amount, p.amt, p.total, add.cltv, tag, ev.is_some() as u8);
+			let skim_tok = add.skim.map(|v| v.to_string()).unwrap_or("none".into());
+			let op = format!("part {} {} {} {} {} {} {} {}", id, add.amount, p.amt, skim_tok, p.total, add.cltv, tag, ev.is_some() as u8);
 			if let Err(m) = self.drive(w, |_| {}) { rec.case(&op, &format!("panic {}", short(&m)), "part:panic", true); return PartOut::Abort; }
 			let seen = observe(w, &self.hash, tpos, epos);
 			if std::env::var("C04MPP_DEBUG").is_ok() { for o in &w.net.trace[tpos..] { eprintln!("  {}", fmt_obs(o)); } }
+			// ---- the amount test in front of the accumulator (create_recv_pending_htlc_info) -------------------------------
+			let failed = seen.fails.contains(&id);
+			let low = failed && seen.handling_failed.iter().any(|t| t.contains("FinalIncorrectHTLCAmount"));
+			let reached = !failed || seen.handling_failed.iter().any(|t| t.contains("Receive") && t.contains("IncorrectPaymentDetails"));
+			if low || reached {
+				let allow = !strict;
+				let want_low = if allow { add.amount.saturating_add(add.skim.unwrap_or(0)) < p.amt } else { add.amount < p.amt };
+				let admit = format!("admit {} {} {} {}", allow as u8, p.amt, add.amount, skim_tok);
+				if low != want_low { rec.oracle_fail(format!("[{}] `{}` -> {}: an HTLC carrying {} msat (+ skimmed fee {:?}) for an onion amount of {} was {} with accept_underpaying_htlcs = {}; ops: {}", self.kind, admit, if low { "low" } else { "ok" }, add.amount, add.skim, p.amt, if low { "refused (FinalIncorrectHTLCAmount)" } else { "let through to the payment logic" }, allow, self.history())); }
+				rec.case(&admit, if low { "low" } else { "ok" }, &format!("admit:{}:{}:{}", if via.is_none() { "direct" } else if add.amount > p.amt { "overpaid" } else if add.skim.is_some() { "skimmed" } else { "exact" }, if allow { "underpay-ok" } else { "strict" }, if low { "low" } else { "ok" }), true);
+			}
+			if low {
+				if !seen.claimable.is_empty() || !seen.fulfils.is_empty() || !seen.claimed.is_empty() { rec.oracle_fail(format!("[{}] an HTLC refused for its amount produced {}; ops: {}", self.kind, seen.answer(), self.history())); }
+				self.absorb(w, rec, &seen, &op);
+				return PartOut::Refused;
+			}
 			let out;
-			if seen.fails.contains(&id) {
+			if failed {
 				// only a failure by the payment logic (after verify) is a `part` the accumulator saw
-				if !seen.handling_failed.iter().any(|t| t.contains("Receive") && t.contains("IncorrectPaymentDetails")) {
+				if !reached {
 					self.dead = true; rec.discarded += 1; self.absorb(w, rec, &seen, &op); return PartOut::Abort;
 				}
 				if !seen.claimable.is_empty() { rec.oracle_fail(format!("[{}] `{}`: the part was failed back AND a PaymentClaimable was generated ({})", self.kind, op, seen.answer())); }
 				rec.case(&op, &seen.answer(), "part:rejected", true);
+				self.ops.push(op.clone());
 				out = PartOut::Rejected;
 			} else {
-				self.held.push(Held { id, value: add.amount, intended: p.amt, total: p.total, cltv: add.cltv });
-				if let Some((amt, dl)) = seen.claimable.first().copied() {
-					// oracle 1: claimable only if complete, with the right amount and deadline
+				self.ops.push(op.clone());
+				self.held.push(Held { id, value: add.amount, intended: p.amt, skim: add.skim.unwrap_or(0), total: p.total, cltv: add.cltv });
+				let shape = if self.held.iter().any(|h| h.value < h.intended) { "-skimmed" } else if self.held.iter().any(|h| h.value > h.intended) { "-overpaid" } else { "" };
+				if let Some((amt, skimmed, dl)) = seen.claimable.first().copied() {
+					// oracle 1: claimable only if complete, with the right amount, skimmed fee and deadline
 					let held: Vec<&Held> = self.held.iter().filter(|h| !seen.fails.contains(&h.id)).collect();
 					let sum_int: u64 = held.iter().map(|h| h.intended).sum();
 					let sum_val: u64 = held.iter().map(|h| h.value).sum();
+					let sum_skim: u64 = held.iter().map(|h| h.skim).sum();
 					let min_cltv = held.iter().map(|h| h.cltv).min().unwrap_or(0);
-					let desc = format!("[{}] `{}` -> {} with held parts {:?}", self.kind, op, seen.answer(), self.held);
+					let desc = format!("[{}] `{}` -> {} with held parts {:?}; ops: {}", self.kind, op, seen.answer(), self.held, self.history());
 					if held.iter().any(|h| h.total != p.total) { rec.oracle_fail(format!("PaymentClaimable over parts with different total_msat: {}", desc)); }
 					if sum_int < p.total { rec.oracle_fail(format!("PaymentClaimable for an incomplete set (sum intended {} < total_msat {}): {}", sum_int, p.total, desc)); }
 					if amt != sum_val { rec.oracle_fail(format!("PaymentClaimable amount {} != sum of held HTLC values {}: {}", amt, sum_val, desc)); }
+					if skimmed != sum_skim { rec.oracle_fail(format!("PaymentClaimable counterparty_skimmed_fee_msat {} != sum of the parts' skimmed fees {}: {}", skimmed, sum_skim, desc)); }
+					if amt.saturating_add(skimmed) < p.total { rec.oracle_fail(format!("PaymentClaimable amount {} + skimmed {} is below total_msat {}: {}", amt, skimmed, p.total, desc)); }
 					if dl != min_cltv.saturating_sub(HTLC_FAIL_BACK_BUFFER) { rec.oracle_fail(format!("PaymentClaimable claim_deadline {} != min cltv {} - {}: {}", dl, min_cltv, HTLC_FAIL_BACK_BUFFER, desc)); }
 					if p.total < self.min { rec.oracle_fail(format!("PaymentClaimable below the invoice minimum {}: {}", self.min, desc)); }
 					if seen.claimable.len() > 1 { rec.oracle_fail(format!("two PaymentClaimable events for one part: {}", desc)); }
-					rec.case(&op, &seen.answer(), "part:claimable", true);
+					rec.case(&op, &seen.answer(), &format!("part:claimable{}", shape), true);
 					self.deadline = Some(dl);
+					self.announced = (amt, skimmed, p.total, sum_int);
 					out = PartOut::Claimable;
 				} else {
-					rec.case(&op, &seen.answer(), "part:held", true);
+					// oracle 1b: a set whose sender-intended amounts reach total_msat for the first time must be announced
+					let sum_int: u64 = self.held.iter().map(|h| h.intended).sum();
+					let before: u64 = sum_int - p.amt;
+					if self.held.iter().all(|h| h.total == p.total) && before < p.total && sum_int >= p.total && sum_int < super::MAX_VALUE_MSAT && self.claimable_set.is_none() {
+						rec.oracle_fail(format!("[{}] `{}` completed the set (sum intended {} >= total_msat {}) but no PaymentClaimable was generated: {} with held parts {:?}; ops: {}", self.kind, op, sum_int, p.total, seen.answer(), self.held, self.history()));
+					}
+					rec.case(&op, &seen.answer(), &format!("part:held{}", shape), true);
 					out = PartOut::Held;
 				}
 			}
@@ -600,14 +735,35 @@ mod mpp {
 			out
 		}
 
+		/// oracle 4 (impl side, no model): a complete payment that was shown to the user is not taken away before its deadline
+		fn premature_fail_oracle(&self, rec: &mut Rec, seen: &Seen, op: &str, height: u32, what: &str) {
+			if let Some((ids, deadline, _)) = &self.claimable_set {
+				let hit: Vec<u64> = seen.fails.iter().filter(|i| ids.contains(i)).cloned().collect();
+				if !hit.is_empty() && height < *deadline {
+					let (amt, skimmed, total, sum_int) = self.announced;
+					rec.oracle_fail(format!("[{}] a complete payment (sum intended {} >= total_msat {}) that was reported PaymentClaimable (amount {}, skimmed {}) was failed back by {} `{}` at height {}, before its claim deadline {}: HTLCs {:?} failed ({}); held parts {:?}; ops: {}",
+						self.kind, sum_int, total, amt, skimmed, what, op, height, deadline, hit, seen.handling_failed.join("; ").chars().take(200).collect::<String>(), self.held, self.history()));
+				}
+			}
+		}
+
 		fn op_tick(&mut self, w: &mut World, rec: &mut Rec) {
 			if self.dead { return; }
 			let (tpos, epos) = (w.net.trace.len(), w.net.events[RECV].len());
 			if let Err(m) = self.drive(w, |w| w.net.nodes[RECV].node.timer_tick_occurred()) { rec.case("tick", &format!("panic {}", short(&m)), "tick:panic", true); return; }
 			let seen = observe(w, &self.hash, tpos, epos);
 			let did = !seen.nothing();
+			self.ops.push("tick".into());
 			if !seen.fulfils.is_empty() || !seen.claimable.is_empty() || !seen.claimed.is_empty() { rec.oracle_fail(format!("[{}] a timer tick produced {}", self.kind, seen.answer())); }
-			rec.case("tick", &seen.answer(), if did { "tick:failall" } else if self.held.is_empty() { "tick:noop-empty" } else { "tick:noop-complete" }, did);
+			self.premature_fail_oracle(rec, &seen, "tick", w.height(), "the timer tick");
+			// an incomplete set must be gone after MPP_TIMEOUT_TICKS ticks (1 in this build): every held part failed
+			let sum_int: u64 = self.held.iter().map(|h| h.intended).sum();
+			let total = self.held.first().map(|h| h.total).unwrap_or(0);
+			if !self.held.is_empty() && self.claimable_set.is_none() && sum_int < total && self.held.iter().any(|h| !seen.fails.contains(&h.id)) {
+				rec.oracle_fail(format!("[{}] an incomplete set (sum intended {} < total_msat {}) survived a timer tick: {} with held parts {:?}; ops: {}", self.kind, sum_int, total, seen.answer(), self.held, self.history()));
+			}
+			let skimmed = self.held.iter().any(|h| h.value != h.intended);
+			rec.case("tick", &seen.answer(), if did { if skimmed { "tick:failall-skimmed" } else { "tick:failall" } } else if self.held.is_empty() { "tick:noop-empty" } else if skimmed { "tick:noop-complete-skimmed" } else { "tick:noop-complete" }, did);
 			self.absorb(w, rec, &seen, "tick");
 		}
 
@@ -625,7 +781,9 @@ mod mpp {
 			if let Err(m) = r { rec.case(&op, &format!("panic {}", short(&m)), "block:panic", true); return; }
 			let seen = observe(w, &self.hash, tpos, epos);
 			let did = !seen.nothing();
+			self.ops.push(op.clone());
 			if !seen.fulfils.is_empty() || !seen.claimable.is_empty() || !seen.claimed.is_empty() { rec.oracle_fail(format!("[{}] `{}` produced {}", self.kind, op, seen.answer())); }
+			self.premature_fail_oracle(rec, &seen, &op, w.height(), "the block");
 			let some_left = self.held.iter().any(|h| !seen.fails.contains(&h.id));
 			rec.case(&op, &seen.answer(), if !did { "block:noop" } else if some_left { "block:fail-some" } else { "block:fail-all" }, did);
 			self.absorb(w, rec, &seen, &op);
@@ -640,6 +798,7 @@ mod mpp {
 			let r = self.drive(w, |w| { let n = w.net.nodes[RECV].node; if known { n.claim_funds_with_known_custom_tlvs(pre) } else { n.claim_funds(pre) } });
 			if let Err(m) = r { rec.case(&op, &format!("panic {}", short(&m)), "claim:panic", true); return; }
 			let seen = observe(w, &self.hash, tpos, epos);
+			self.ops.push(op.clone());
 			self.claim_oracles(w, rec, &seen, &op, height, known);
 			let class = if !seen.fulfils.is_empty() { "claim:fulfil" } else if !seen.fails.is_empty() { "claim:failall" } else if self.held.is_empty() { "claim:none" } else { "claim:none-dropped" };
 			rec.case(&op, &seen.answer(), class, true);
@@ -656,7 +815,7 @@ mod mpp {
 
 		/// oracles 2, 3, 4 on the outcome of a claim
 		fn claim_oracles(&mut self, w: &World, rec: &mut Rec, seen: &Seen, op: &str, height: u32, known: bool) {
-			let desc = format!("[{}] `{}` at height {} -> {} with held parts {:?}", self.kind, op, height, seen.answer(), self.held);
+			let desc = format!("[{}] `{}` at height {} -> {} with held parts {:?}; ops: {}", self.kind, op, height, seen.answer(), self.held, self.history());
 			if !seen.fulfils.is_empty() && !seen.fails.is_empty() { rec.oracle_fail(format!("a claim both fulfilled and failed HTLCs: {}", desc)); }
 			if !seen.claimable.is_empty() { rec.oracle_fail(format!("a claim produced PaymentClaimable: {}", desc)); }
 			if !seen.fulfils.is_empty() {
@@ -666,7 +825,11 @@ mod mpp {
 				let total = self.held.first().map(|h| h.total).unwrap_or(0);
 				if seen.fulfils != ids { rec.oracle_fail(format!("a claim did not fulfil exactly the held parts {:?}: {}", ids, desc)); }
 				if sum_int < total { rec.oracle_fail(format!("an incomplete set was claimed (sum intended {} < total_msat {}): {}", sum_int, total, desc)); }
-				if seen.claimed.len() != 1 || seen.claimed[0] != sum { rec.oracle_fail(format!("PaymentClaimed {:?} != sum of the fulfilled HTLC values {}: {}", seen.claimed, sum, desc)); }
+				if seen.claimed.len() != 1 || seen.claimed[0].0 != sum { rec.oracle_fail(format!("PaymentClaimed {:?} != sum of the fulfilled HTLC values {}: {}", seen.claimed, sum, desc)); }
+				if let Some((a, k, t, hv)) = seen.claimed.first().copied() {
+					let sum_skim: u64 = self.held.iter().map(|h| h.skim).sum();
+					if k != sum_skim || hv != a || t != total { rec.oracle_fail(format!("PaymentClaimed (amount {}, htlcs worth {} with skimmed fees {}, sender_intended_total {}) does not describe the held parts (values {}, skimmed {}, total_msat {}): {}", a, hv, k, t, sum, sum_skim, total, desc)); }
+				}
 				self.claimed_total += sum;
 				let bal = w.recv_balance();
 				if bal != self.bal0 + self.claimed_total { rec.oracle_fail(format!("receiver balance moved by {} msat, claimed {} msat: {}", bal as i128 - self.bal0 as i128, self.claimed_total, desc)); }
@@ -676,6 +839,9 @@ mod mpp {
 			if let Some((ids, deadline, ev)) = &self.claimable_set {
 				if height < *deadline && (known || !*ev) && !ids.iter().all(|i| seen.fulfils.contains(i)) {
 					rec.oracle_fail(format!("claim before the claim_deadline {} did not fulfil every part of the PaymentClaimable set {:?}: {}", deadline, ids, desc));
+				}
+				if height < *deadline && (known || !*ev) && (seen.claimed.len() != 1 || seen.claimed[0].0 != self.announced.0 || seen.claimed[0].1 != self.announced.1) {
+					rec.oracle_fail(format!("claim_funds on a claimable payment (announced amount {}, skimmed {}) before the deadline {} did not produce PaymentClaimed for it: {}", self.announced.0, self.announced.1, deadline, desc));
 				}
 			}
 		}
@@ -702,6 +868,7 @@ mod mpp {
 			}));
 			if let Err(m) = r { w.bad = true; self.dead = true; rec.case(&claim_op, &format!("panic {}", short(&m)), "claim:panic", true); return; }
 			let early = observe(w, &self.hash, tpos, epos);
+			self.ops.push(claim_op.clone());
 			// the late part
 			let onion = self.onion(late, self.secrets[late.sec % self.secrets.len()]);
 			let hash = self.hash;
@@ -731,9 +898,10 @@ mod mpp {
 			if let (Some(a), Some(id)) = (add, late_id) {
 				let ev = late.tlv.even();
 				let tag = (late.sec % self.secrets.len()) as u64 * 1000 + match ev { None => 1, Some(v) => 2 + v as u64 };
-				let op = format!("part {} {} {} {} {} {} {}", id, a.amount, late.amt, late.total, a.cltv, tag, ev.is_some() as u8);
+				let op = format!("part {} {} {} {} {} {} {} {}", id, a.amount, late.amt, a.skim.map(|v| v.to_string()).unwrap_or("none".into()), late.total, a.cltv, tag, ev.is_some() as u8);
+				self.ops.push(op.clone());
 				if !of_part.fulfils.is_empty() || !of_part.claimable.is_empty() { rec.oracle_fail(format!("[{}] `{}` arriving while the payment is being claimed produced {}", self.kind, op, of_part.answer())); }
-				if of_part.fails.is_empty() { self.held.push(Held { id, value: a.amount, intended: late.amt, total: late.total, cltv: a.cltv }); }
+				if of_part.fails.is_empty() { self.held.push(Held { id, value: a.amount, intended: late.amt, skim: a.skim.unwrap_or(0), total: late.total, cltv: a.cltv }); }
 				rec.case(&op, &of_part.answer(), if of_part.fails.is_empty() { "part:held-during-claim" } else { "part:rejected-during-claim" }, true);
 			} else { self.dead = true; rec.discarded += 1; }
 			let claimed = !all.claimed.is_empty();
@@ -748,6 +916,7 @@ mod mpp {
 			let hash = self.hash;
 			if let Err(m) = self.drive(w, |w| w.net.nodes[RECV].node.fail_htlc_backwards(&hash)) { rec.case("failback", &format!("panic {}", short(&m)), "failback:panic", true); return; }
 			let seen = observe(w, &self.hash, tpos, epos);
+			self.ops.push("failback".into());
 			if !seen.fulfils.is_empty() || !seen.claimable.is_empty() || !seen.claimed.is_empty() { rec.oracle_fail(format!("[{}] failback produced {}", self.kind, seen.answer())); }
 			let ids: Vec<u64> = { let mut v: Vec<u64> = self.held.iter().map(|h| h.id).collect(); v.sort(); v };
 			if seen.fails != ids { rec.oracle_fail(format!("[{}] fail_htlc_backwards failed {:?}, held were {:?}", self.kind, seen.fails, ids)); }
@@ -817,12 +986,49 @@ mod mpp {
 		match rng.below(4) { 0 => None, 1 => Some(total), 2 => Some(1 + rng.below(total)), _ => Some(total / 2 + 1) }
 	}
 
-	struct Gen<'a> { rng: &'a mut Rng, routes: usize }
+	/// `lsp`: indices into `routes` of the intercepting node's channels (empty: no such node in this network)
+	struct Gen<'a> { rng: &'a mut Rng, routes: usize, lsp: Vec<usize> }
+	fn lsp_routes(w: &World) -> Vec<usize> { if w.lsp_in.is_none() { vec![] } else { (0..w.routes.len()).filter(|r| w.routes[*r].0 == 2).collect() } }
 	impl<'a> Gen<'a> {
 		fn delta(&mut self) -> u32 { 60 + self.rng.below(50) as u32 }
+		/// what the intercepting node keeps (> 0) or adds (< 0) when it releases a part of `amt` msat; the forwarded amount
+		/// stays at or above the channels' 1000 msat htlc minimum
+		fn skim(&mut self, amt: u64) -> i64 {
+			let room = amt.saturating_sub(1000);
+			match self.rng.below(8) {
+				0 => 0,
+				1 => -(1 + self.rng.below(5_000) as i64),
+				2 => -(1 + self.rng.below(amt.max(2)) as i64),
+				3 => room.min(1) as i64,
+				4 => room as i64,
+				_ => if room == 0 { 0 } else { 1 + self.rng.below(room.min(20_000)) as i64 },
+			}
+		}
+		/// in a network with an intercepting last hop about half of the parts go through it (skimmed / over-paid / exact)
 		fn parts(&mut self, amts: &[u64], total: u64, tlv: Tlv, same_delta: bool) -> Vec<PartSpec> {
 			let d0 = self.delta();
-			amts.iter().map(|a| PartSpec { route: self.rng.below(self.routes as u64) as usize, amt: *a, total, delta: if same_delta { d0 } else { self.delta() }, sec: 0, tlv }).collect()
+			let mut out = vec![];
+			for a in amts {
+				let mut route = self.rng.below(self.routes as u64) as usize;
+				let mut via = None; let mut strict = false;
+				if !self.lsp.is_empty() && self.rng.chance(1, 2) { route = *self.rng.pick(&self.lsp); via = Some(self.skim(*a)); strict = self.rng.chance(1, 14); }
+				out.push(PartSpec { route, amt: *a, total, delta: if same_delta { d0 } else { self.delta() }, sec: 0, tlv, via, strict });
+			}
+			out
+		}
+		/// every part through the intercepting node when there is one
+		fn parts_via(&mut self, amts: &[u64], total: u64, over: bool) -> Vec<PartSpec> {
+			let mut ps = self.parts(amts, total, Tlv::No, false);
+			for p in ps.iter_mut() {
+				p.delta = 60 + (p.delta - 60) % 7;
+				p.strict = false;
+				if !self.lsp.is_empty() {
+					p.route = *self.rng.pick(&self.lsp);
+					let sk = self.skim(p.amt);
+					p.via = Some(if over { -(sk.abs().max(1)) } else if self.rng.chance(1, 6) { sk } else { sk.abs() });
+				}
+			}
+			ps
 		}
 	}
 
@@ -835,13 +1041,13 @@ mod mpp {
 			4 => { s.op_claim(w, rec, known); s.op_failback(w, rec); },
 			5 => s.op_failback(w, rec),
 			6 => { s.op_failback(w, rec); if rng.chance(1, 2) { s.op_claim(w, rec, known) } else { s.op_failback(w, rec) } },
-			7 => { for _ in 0..1 + rng.below(3) { s.op_tick(w, rec); } s.op_claim(w, rec, known); },
+			7 => { if rng.chance(1, 2) { tick_walk(w, rec, rng, s, ev); } else { for _ in 0..1 + rng.below(3) { s.op_tick(w, rec); } s.op_claim(w, rec, known); } },
 			8 => { for _ in 0..1 + rng.below(3) { s.op_block(w, rec, None); } if rng.chance(1, 3) { s.op_tick(w, rec); } s.op_claim(w, rec, known); },
 			_ => {
 				// claim, then a brand-new part under the same hash starts a new set
 				s.op_claim(w, rec, known);
 				if s.dead { return; }
-				let mut g = Gen { rng: &mut *rng, routes: w.routes.len() };
+				let mut g = Gen { rng: &mut *rng, routes: w.routes.len(), lsp: lsp_routes(w) };
 				let tlv = if ev && g.rng.chance(1, 2) { Tlv::Even(7) } else { Tlv::No };
 				let amt = if total < 2001 || g.rng.chance(1, 2) { total } else { 1000 + g.rng.below(total - 2000) };
 				let p = g.parts(&[amt], total, tlv, true).remove(0);
@@ -858,6 +1064,30 @@ mod mpp {
 		}
 	}
 
+	/// A complete set between its PaymentClaimable and the claim: timer ticks right away, then single blocks with 0-2 ticks
+	/// after each up to a chosen height below the claim deadline (every tick and block must leave the set alone), then
+	/// claim (must fulfil every part) / fail back / run into the deadline.
+	fn tick_walk(w: &mut World, rec: &mut Rec, rng: &mut Rng, s: &mut Scn, ev: bool) {
+		let d = match s.deadline { Some(d) => d, None => return };
+		let h0 = w.height();
+		for _ in 0..1 + rng.below(3) { s.op_tick(w, rec); }
+		let last = d.saturating_sub(1).max(h0);
+		let stop = match rng.below(5) { 0 => h0, 1 | 2 => last, _ => h0 + rng.below((last - h0) as u64 + 1) as u32 };
+		let mut guard = 0;
+		while !s.dead && w.height() < stop && guard < 120 {
+			s.op_block(w, rec, None); guard += 1;
+			for _ in 0..rng.below(3) { s.op_tick(w, rec); }
+		}
+		if s.dead { return; }
+		let known = ev || rng.chance(1, 5);
+		match rng.below(8) {
+			0 => s.op_failback(w, rec),
+			1 => { s.blocks_to(w, rec, d); s.op_tick(w, rec); s.op_claim(w, rec, known); },
+			2 => { s.op_claim(w, rec, known); s.op_tick(w, rec); },
+			_ => s.op_claim(w, rec, known),
+		}
+	}
+
 	fn send_all(w: &mut World, rec: &mut Rec, rng: &mut Rng, s: &mut Scn, parts: &[PartSpec], blocks_between: bool) -> PartOut {
 		let mut last = PartOut::Abort;
 		for (i, p) in parts.iter().enumerate() {
@@ -870,13 +1100,14 @@ mod mpp {
 
 	const KINDS: &[(&str, u64)] = &[
 		("exact", 22), ("overlast", 6), ("tick-between", 10), ("under", 9), ("over", 9), ("bad-total", 8), ("tlv-mix", 10), ("even-all", 8),
-		("secret-mix", 6), ("deadline", 12), ("unmodelled", 9), ("during-claim", 7),
+		("secret-mix", 6), ("deadline", 12), ("unmodelled", 9), ("during-claim", 7), ("skim", 24), ("skim-under", 7), ("overfwd", 7),
 	];
 	/// schedules that leave HTLCs stuck in the receiver's channels: run as the last scenario of a network
 	const LAST_KINDS: &[&str] = &["claim-incomplete", "deadline-drop", "under-claim"];
 
 	fn run_scenario(w: &mut World, rec: &mut Rec, rng: &mut Rng, kind: &'static str, bad: &mut BTreeMap<String, u64>) {
 		let nroutes = w.routes.len();
+		let lsp = lsp_routes(w);
 		match kind {
 			"exact" | "overlast" => {
 				let k = 1 + rng.below(4) as usize;
@@ -886,12 +1117,61 @@ mod mpp {
 				let tlv = match rng.below(8) { 0 => Tlv::Odd(rng.below(4) as u8), _ => Tlv::No };
 				let min = pick_min(rng, total);
 				let mut s = Scn::new(w, rec, rng, kind, min, false, 7200);
-				let mut g = Gen { rng: &mut *rng, routes: nroutes };
+				let mut g = Gen { rng: &mut *rng, routes: nroutes, lsp: lsp.clone() };
 				let same = g.rng.chance(1, 2);
 				let mut parts = g.parts(&amts, total, tlv, same);
 				if tlv != Tlv::No { for p in parts.iter_mut() { if rng.chance(1, 2) { p.tlv = if rng.chance(1, 2) { Tlv::No } else { Tlv::Odd(rng.below(4) as u8) }; } } }
 				let blocks = rng.chance(1, 3);
 				if send_all(w, rec, rng, &mut s, &parts, blocks) == PartOut::Claimable { tail_complete(w, rec, rng, &mut s, false, total); }
+				s.finish(w);
+			},
+			"skim" => {
+				// every part through the intercepting node (skimmed fee, sometimes exact / over-paid): complete on the
+				// sender-intended amounts although less arrived; ticks and blocks at every point up to the claim
+				let k = 1 + rng.below(3) as usize;
+				let total = pick_total(rng, k) + 1500 * k as u64;
+				let mut amts = split(rng, total, k);
+				if rng.chance(1, 5) { let i = rng.below(k as u64) as usize; amts[i] += 1 + rng.below(20_000); let l = amts.remove(i); amts.push(l); }
+				let min = pick_min(rng, total);
+				let mut s = Scn::new(w, rec, rng, kind, min, false, 7200);
+				let mut g = Gen { rng: &mut *rng, routes: nroutes, lsp: lsp.clone() };
+				let parts = g.parts_via(&amts, total, false);
+				let blocks = rng.chance(1, 4);
+				if send_all(w, rec, rng, &mut s, &parts, blocks) == PartOut::Claimable {
+					if rng.chance(1, 6) {
+						// a late part (skimmed as well) is refused on its own and does not disturb the set
+						let mut g = Gen { rng: &mut *rng, routes: nroutes, lsp: lsp.clone() };
+						let extra = 2000 + g.rng.below(total);
+						let p = g.parts_via(&[extra], total, false).remove(0);
+						s.op_part(w, rec, &p);
+					}
+					tick_walk(w, rec, rng, &mut s, false);
+				}
+				s.finish(w);
+			},
+			"skim-under" | "overfwd" => {
+				// the sender-intended amounts stay below total_msat: skim-under = less arrives than intended; overfwd = the
+				// intercepting node forwards MORE than the onion says (what arrived may even exceed total_msat): not complete
+				// either way, the timer tick fails everything
+				let k = 1 + rng.below(3) as usize;
+				let total = pick_total(rng, k + 1) + 1500 * (k as u64 + 1);
+				let mut amts = split(rng, total, k + 1);
+				amts.pop();
+				let min = pick_min(rng, total);
+				let mut s = Scn::new(w, rec, rng, kind, min, false, 7200);
+				let mut g = Gen { rng: &mut *rng, routes: nroutes, lsp: lsp.clone() };
+				let mut parts = g.parts_via(&amts, total, kind == "overfwd");
+				if kind == "overfwd" && !lsp.is_empty() {
+					// the first part alone brings more than the whole total
+					let missing: u64 = total - amts[0];
+					parts[0].via = Some(-((missing + rng.below(5_000)) as i64));
+				}
+				send_all(w, rec, rng, &mut s, &parts, false);
+				match rng.below(4) {
+					0 => s.op_failback(w, rec),
+					1 => { s.op_block(w, rec, None); s.op_tick(w, rec); },
+					_ => { s.op_tick(w, rec); if rng.chance(1, 3) { s.op_tick(w, rec); } },
+				}
 				s.finish(w);
 			},
 			"tick-between" => {
@@ -901,7 +1181,7 @@ mod mpp {
 				let j = 1 + rng.below(k as u64 - 1) as usize;
 				let min = pick_min(rng, total);
 				let mut s = Scn::new(w, rec, rng, kind, min, false, 7200);
-				let mut g = Gen { rng: &mut *rng, routes: nroutes };
+				let mut g = Gen { rng: &mut *rng, routes: nroutes, lsp: lsp.clone() };
 				let parts = g.parts(&amts, total, Tlv::No, false);
 				let blocks = rng.chance(1, 4);
 				send_all(w, rec, rng, &mut s, &parts[..j], blocks);
@@ -913,7 +1193,7 @@ mod mpp {
 					match rng.below(3) { 0 => s.op_failback(w, rec), 1 => { s.op_tick(w, rec); s.op_claim(w, rec, false); }, _ => { s.op_block(w, rec, None); s.op_tick(w, rec); } }
 				} else {
 					let amts2 = split(rng, total, k);
-					let mut g = Gen { rng: &mut *rng, routes: nroutes };
+					let mut g = Gen { rng: &mut *rng, routes: nroutes, lsp: lsp.clone() };
 					let parts2 = g.parts(&amts2, total, Tlv::No, false);
 					if send_all(w, rec, rng, &mut s, &parts2, false) == PartOut::Claimable { tail_complete(w, rec, rng, &mut s, false, total); }
 				}
@@ -926,7 +1206,7 @@ mod mpp {
 				amts.pop();
 				let min = pick_min(rng, total);
 				let mut s = Scn::new(w, rec, rng, kind, min, false, 7200);
-				let mut g = Gen { rng: &mut *rng, routes: nroutes };
+				let mut g = Gen { rng: &mut *rng, routes: nroutes, lsp: lsp.clone() };
 				let mut parts = g.parts(&amts, total, Tlv::No, false);
 				// claim_funds on an incomplete set whose parts are not in (channel_id, htlc_id) order trips a
 				// debug_assert (see probe_unsorted_incomplete_claim): keep arrival order sorted for the claiming kinds
@@ -954,11 +1234,11 @@ mod mpp {
 				let amts = split(rng, total, k);
 				let min = pick_min(rng, total);
 				let mut s = Scn::new(w, rec, rng, kind, min, false, 7200);
-				let mut g = Gen { rng: &mut *rng, routes: nroutes };
+				let mut g = Gen { rng: &mut *rng, routes: nroutes, lsp: lsp.clone() };
 				let parts = g.parts(&amts, total, Tlv::No, false);
 				if send_all(w, rec, rng, &mut s, &parts, false) == PartOut::Claimable {
 					for _ in 0..1 + rng.below(2) {
-						let mut g = Gen { rng: &mut *rng, routes: nroutes };
+						let mut g = Gen { rng: &mut *rng, routes: nroutes, lsp: lsp.clone() };
 						let extra = 1000 + g.rng.below(total);
 						let p = g.parts(&[extra], total, Tlv::No, true).remove(0);
 						s.op_part(w, rec, &p);
@@ -974,7 +1254,7 @@ mod mpp {
 				let amts = split(rng, total, k);
 				let min = pick_min(rng, total).map(|m| m.min(total - 1000));
 				let mut s = Scn::new(w, rec, rng, kind, min, false, 7200);
-				let mut g = Gen { rng: &mut *rng, routes: nroutes };
+				let mut g = Gen { rng: &mut *rng, routes: nroutes, lsp: lsp.clone() };
 				let mut parts = g.parts(&amts, total, Tlv::No, false);
 				// one part announces another total_msat (still >= the invoice minimum): refused by check_merge
 				let other = if rng.chance(1, 2) { total + 1 + rng.below(5000) } else { (total - 1 - rng.below(1000)).max(s.min) };
@@ -995,7 +1275,7 @@ mod mpp {
 				let base = if kind == "even-all" { if rng.chance(1, 4) { Tlv::Both(v, 1) } else { Tlv::Even(v) } } else { match rng.below(3) { 0 => Tlv::No, 1 => Tlv::Even(v), _ => Tlv::Both(v, 9) } };
 				let min = pick_min(rng, total);
 				let mut s = Scn::new(w, rec, rng, kind, min, false, 7200);
-				let mut g = Gen { rng: &mut *rng, routes: nroutes };
+				let mut g = Gen { rng: &mut *rng, routes: nroutes, lsp: lsp.clone() };
 				let mut parts = g.parts(&amts, total, base, false);
 				if kind == "tlv-mix" {
 					// parts after the first may differ in their ODD TLVs only; one intruder differs in the EVEN ones
@@ -1015,7 +1295,7 @@ mod mpp {
 				let amts = split(rng, total, k);
 				let min = pick_min(rng, total);
 				let mut s = Scn::new(w, rec, rng, kind, min, true, 7200);
-				let mut g = Gen { rng: &mut *rng, routes: nroutes };
+				let mut g = Gen { rng: &mut *rng, routes: nroutes, lsp: lsp.clone() };
 				let mut parts = g.parts(&amts, total, Tlv::No, false);
 				let main = rng.below(2) as usize;
 				for p in parts.iter_mut() { p.sec = main; }
@@ -1033,7 +1313,7 @@ mod mpp {
 				let amts = split(rng, total, k);
 				let min = pick_min(rng, total);
 				let mut s = Scn::new(w, rec, rng, kind, min, false, 7200);
-				let mut g = Gen { rng: &mut *rng, routes: nroutes };
+				let mut g = Gen { rng: &mut *rng, routes: nroutes, lsp: lsp.clone() };
 				let same = kind == "deadline" && g.rng.chance(1, 2);
 				let mut parts = g.parts(&amts, total, Tlv::No, same);
 				for p in parts.iter_mut() { p.delta = 60 + (p.delta - 60) % 7; }
@@ -1070,19 +1350,20 @@ mod mpp {
 				let ev = rng.chance(1, 4);
 				let tlv = if ev { Tlv::Even(3) } else { Tlv::No };
 				let mut s = Scn::new(w, rec, rng, kind, min, false, 7200);
-				let mut g = Gen { rng: &mut *rng, routes: nroutes };
+				let mut g = Gen { rng: &mut *rng, routes: nroutes, lsp: lsp.clone() };
 				let mut parts = g.parts(&amts, total, tlv, false);
 				let r0 = parts[0].route;
 				for p in parts.iter_mut() { p.route = r0; }
 				if send_all(w, rec, rng, &mut s, &parts, false) == PartOut::Claimable {
-					let mut g = Gen { rng: &mut *rng, routes: nroutes };
+					let mut g = Gen { rng: &mut *rng, routes: nroutes, lsp: lsp.clone() };
 					let amt = if g.rng.chance(1, 2) { total } else { 1000 + g.rng.below(total) };
 					let mut late = g.parts(&[amt], total, tlv, true).remove(0);
 					late.route = (r0 + 1 + rng.below(nroutes as u64 - 1) as usize) % nroutes;
+					late.via = None; late.strict = false;
 					s.op_claim_with_late_part(w, rec, ev || rng.chance(1, 5), &late);
 					// afterwards the hash is free again
 					if !s.dead && rng.chance(1, 2) {
-						let mut g = Gen { rng: &mut *rng, routes: nroutes };
+						let mut g = Gen { rng: &mut *rng, routes: nroutes, lsp: lsp.clone() };
 						let p = g.parts(&[total], total, Tlv::No, true).remove(0);
 						if s.op_part(w, rec, &p) == PartOut::Claimable { if rng.chance(1, 2) { s.op_claim(w, rec, false) } else { s.op_failback(w, rec) } }
 					}
@@ -1097,7 +1378,7 @@ mod mpp {
 				let mut s = Scn::new(w, rec, rng, kind, min, false, if what == "expired-invoice" { 1 } else { 7200 });
 				let with_valid_first = rng.chance(1, 2);
 				if with_valid_first {
-					let mut g = Gen { rng: &mut *rng, routes: nroutes };
+					let mut g = Gen { rng: &mut *rng, routes: nroutes, lsp: lsp.clone() };
 					let p = g.parts(&amts[..1], total, Tlv::No, true).remove(0);
 					s.op_part(w, rec, &p);
 				}
@@ -1134,14 +1415,14 @@ mod mpp {
 		let mut s = Scn::new(&mut w, &mut scratch, rng, "probe", None, false, 7200);
 		let total = 300_000;
 		// the surviving part and the late part share a channel, so that the set stays in (channel_id, htlc_id) order
-		let a = PartSpec { route: 0, amt: 100_000, total, delta: 60, sec: 0, tlv: Tlv::No };
-		let b = PartSpec { route: 1, amt: 200_000, total, delta: 66, sec: 0, tlv: Tlv::No };
+		let a = PartSpec { route: 0, amt: 100_000, total, delta: 60, sec: 0, tlv: Tlv::No, via: None, strict: false };
+		let b = PartSpec { route: 1, amt: 200_000, total, delta: 66, sec: 0, tlv: Tlv::No, via: None, strict: false };
 		s.op_part(&mut w, &mut scratch, &a);
 		if s.op_part(&mut w, &mut scratch, &b) != PartOut::Claimable { std::mem::forget(w); return "set-up failed: the two parts did not become claimable".into(); }
 		let d = s.deadline.unwrap_or(0);
 		s.blocks_to(&mut w, &mut scratch, d);
 		if s.held.len() != 1 { std::mem::forget(w); return format!("set-up failed: {} parts left after the deadline block", s.held.len()); }
-		let c = PartSpec { route: 1, amt: 50_000, total, delta: 70, sec: 0, tlv: Tlv::No };
+		let c = PartSpec { route: 1, amt: 50_000, total, delta: 70, sec: 0, tlv: Tlv::No, via: None, strict: false };
 		let o = s.op_part(&mut w, &mut scratch, &c);
 		if o != PartOut::Held { std::mem::forget(w); return format!("set-up failed: the late part was {:?}", o); }
 		let (tpos, epos) = (w.net.trace.len(), w.net.events[RECV].len());
@@ -1164,8 +1445,8 @@ mod mpp {
 		let total = 300_000;
 		// first the channel with the larger channel_id, then the smaller one
 		let hi = if w.rank[w.routes[0].1] > w.rank[w.routes[1].1] { 0 } else { 1 };
-		let a = PartSpec { route: hi, amt: 100_000, total, delta: 80, sec: 0, tlv: Tlv::No };
-		let b = PartSpec { route: 1 - hi, amt: 100_000, total, delta: 80, sec: 0, tlv: Tlv::No };
+		let a = PartSpec { route: hi, amt: 100_000, total, delta: 80, sec: 0, tlv: Tlv::No, via: None, strict: false };
+		let b = PartSpec { route: 1 - hi, amt: 100_000, total, delta: 80, sec: 0, tlv: Tlv::No, via: None, strict: false };
 		if s.op_part(&mut w, &mut scratch, &a) != PartOut::Held || s.op_part(&mut w, &mut scratch, &b) != PartOut::Held { std::mem::forget(w); return "set-up failed: the two parts were not held".into(); }
 		let (tpos, epos) = (w.net.trace.len(), w.net.events[RECV].len());
 		let pre = s.preimage;
@@ -1185,7 +1466,7 @@ mod mpp {
 		let mut w = match build_world(rng, true) { Ok(w) => w, Err(e) => return format!("could not build the network: {}", short(&e)) };
 		let mut scratch = Rec::new(&probe_dir(), "probe2");
 		let mut s = Scn::new(&mut w, &mut scratch, rng, "probe", None, false, 7200);
-		let a = PartSpec { route: 0, amt: 100_000, total: 100_000, delta: 100, sec: 0, tlv: Tlv::No };
+		let a = PartSpec { route: 0, amt: 100_000, total: 100_000, delta: 100, sec: 0, tlv: Tlv::No, via: None, strict: false };
 		if s.op_part(&mut w, &mut scratch, &a) != PartOut::Claimable { std::mem::forget(w); return "set-up failed: the part did not become claimable".into(); }
 		let mut out = "survived 256 ticks; the payment stayed claimable".to_string();
 		for i in 1..=256u32 {
@@ -1208,7 +1489,7 @@ mod mpp {
 		silence_stdout();
 		let mut rec = Rec::new(&args.out, "c04mpp");
 		let mut rng = Rng::new(args.seed);
-		let n_scen: u64 = if args.thorough { 3400 } else { 340 } * args.scale;
+		let n_scen: u64 = if args.thorough { 3400 } else { 600 } * args.scale;
 		let per_world: u32 = if args.thorough { 40 } else { 30 };
 		let weight_total: u64 = KINDS.iter().map(|k| k.1).sum();
 		let mut kinds: BTreeMap<String, u64> = BTreeMap::new();
@@ -1248,13 +1529,13 @@ mod mpp {
 		rec.notes.insert("probe_timer_ticks_u8".into(), p2);
 		let ks: Vec<String> = kinds.iter().map(|(k, v)| format!("{}={}", k, v)).collect();
 		rec.notes.insert("rule".into(), format!(
-			"{} scenarios (one fresh invoice / payment hash each) on {} real networks (sender, receiver, 2-3 parallel channels, sometimes a second sender; {} abandoned after a panic/protocol error, every network retired after {} scenarios with a schedule that leaves HTLCs dropped). \
+			"{} scenarios (one fresh invoice / payment hash each) on {} real networks (sender, receiver with accept_underpaying_htlcs, 2-3 parallel channels; in 3 of 5 networks a third node that is a second sender AND an intercepting last hop: a part sent 0 -> 2 -> receiver over its intercept scid is released by the harness with forward_intercepted_htlc at onion amount - x, x > 0 a skimmed fee (skimmed_fee_msat TLV, value < sender_intended), x < 0 an over-payment, x = 0 exact; about half of the parts of EVERY schedule take that way, 1 in 14 of them while the receiver refuses underpaying HTLCs on that channel (update_channel_config) - the `admit` op; {} abandoned after a panic/protocol error, every network retired after {} scenarios with a schedule that leaves HTLCs dropped). \
 	Every part is its own single-path payment with the same hash+secret and a chosen total_msat; after each op everything is delivered and the receiver's update_fail/update_fulfill/PaymentClaimable/PaymentClaimed are recorded. \
 	Schedules: {}. exact = 1-4 part split in random order over random channels with random final CLTV deltas, blocks between parts; overlast = last part overshoots; tick-between = timer tick fails the held parts, later parts start a new set; under = under-payment then tick/failback; \
 	over = extra part(s) after completion; bad-total = a part with another total_msat; tlv-mix = even/odd custom TLV mismatches; even-all = same even TLV on all parts then claim 0 / claim 1; secret-mix = second valid secret for the same hash; \
 	during-claim = the set arrives over one channel, claim_funds runs with the receiver's monitor updates held InProgress on that channel, a new part arrives over another channel (failed: the hash is in pending_claiming_payments), then the updates complete (fulfils + PaymentClaimed are attributed to the claim line, the late part's failure to its part line); deadline = single blocks up to claim_deadline-1 then claim, or up to claim_deadline (parts fail by their own cltv) then claim/failback/tick/more blocks; claim-incomplete, under-claim, deadline-drop = claims that drop HTLCs silently (network abandoned afterwards); \
 	complete sets end with claim / double claim / claim+failback / failback / failback+claim / ticks+claim / blocks+claim / claim+new part under the same hash. \
-	unmodelled (impl oracle only, no part op): wrong payment secret (1 bit flipped), total_msat below the invoice minimum, expired invoice, each alone or as the completing part of a held set. intended == value on every part (direct hop). Three probes on throw-away networks are in the notes (never in the compared stream): probe_inconsistent_claim, probe_timer_ticks_u8, probe_unsorted_incomplete_claim. distinct = distinct non-trivial op lines",
+	skim = every part through the intercepting node, complete on the sender-intended amounts although less arrived, then 1-3 timer ticks, single blocks with 0-2 ticks after each up to a chosen height <= claim_deadline-1, then claim / claim+tick / failback / run into the deadline (half of the ticks+claim tails of the other schedules do the same walk); skim-under = skimmed parts that stay below total_msat, then tick / block+tick / failback; overfwd = over-paying forwards whose VALUES reach total_msat while the sender-intended amounts do not (held, failed by the tick); unmodelled (impl oracle only, no part op): wrong payment secret (1 bit flipped), total_msat below the invoice minimum, expired invoice, each alone or as the completing part of a held set. Impl oracles: PaymentClaimable only for complete sets (sum intended >= total_msat) with amount = sum of values, counterparty_skimmed_fee_msat = sum of skims, deadline = min cltv - 39, and conversely a set that completes IS announced; a PaymentClaimable set loses no HTLC to a timer tick or a block below its claim_deadline (message carries the op history); an incomplete set is failed by the tick; claim below the deadline fulfils every part and yields PaymentClaimed with the announced amount / skim / total_msat and balance delta = amount; the receive-side amount test matches value (+ skim when allowed) >= onion amount. Three probes on throw-away networks are in the notes (never in the compared stream): probe_inconsistent_claim, probe_timer_ticks_u8, probe_unsorted_incomplete_claim. distinct = distinct non-trivial op lines",
 			done, worlds, abandoned, per_world, ks.join(" ")));
 		rec.finish();
 	}
